@@ -1147,6 +1147,9 @@ class SpecAPI(object):
     def s_map_get(self, it, a, k):
         return a[0].getitem(it, a[1])
 
+    def s_str_of_symbol(self, it, a, k):
+        return a[0].names[a[1]]
+
     def s_calls(self, it, a, k):
         fn = a[0]
         return [list(e['args']) for e in it.ctx.log if isinstance(e, dict) and e['kind'] == 'host' and e['fn'] is fn]
